@@ -122,6 +122,22 @@ actions see, and the state (md5 of every file_dep, existence of targets) at ever
         of the history too.  A task reported successful that the DB in the start directory does not record / the next run executes again is
         reported with the shape c06:chdir-diverts-db-flush (fixed in /repo by 017cc13; the pre-fix code is flagged on json and dbm).
 
+(1g) the history BEFORE (and after) the interrupted run -- harness/c06_history.py (read its docstring).  Histories of 3-7 invocations of one
+    task set between which the user switches `--check_file_uptodate` (records written under ANOTHER checker are met), removes targets and edits
+    the configuration of doit.tools.config_changed items (Dependency.get_status answers "run" BEFORE it looks at the saved checker), edits and
+    takes back sources / rev files; tasks with config_changed(<str | dict>), run_once, values-reading callables, getargs consumers, the
+    constants False / True / None; one (thorough: sometimes two) invocation CUT by KeyboardInterrupt / SystemExit; serial + thread runner.
+      * oracle (class Ledger, from the declared inputs and the states the actions log): EVERY run of the history skips exactly the tasks
+        whose last flushed successful execution was made for the present state under the present checker setting (undetermined, not judged:
+        the only known execution is recorded under the other checker); `forgot-after-interrupt` = a task reported successful by a CUT run and
+        unchanged is executed again; `lying` = a skip without such an execution; record rule after every run (saved -> recorded with the
+        values of that execution + those of its helpers, and its result; removed -> absent; others unchanged or absent).
+      * correspondence: the real Dependency.save_success on a record written under the same / the other / no checker (real backends, flushed
+        in between or not) against Model/SaveRec.v `save_success` evaluated in Coq: the definition C06_save_keeps_every_pair /
+        C06_save_other_checker_drops_old / C06_save_same_checker_keeps_old speak about.
+      * SYSTEMATIC block (same on every seed): fixed 4-task set, {targets removed, configuration + rev edited, sources edited, nothing} x
+        {md5>timestamp, timestamp>md5, md5>md5, timestamp>timestamp} x backend, the cut in the last task; plus random histories.
+
 (2) kill sweep.  The same child under
         strace -f -P <db files> -e trace=S -e inject=<s>:signal=SIGKILL:when=<k>
         S = openat,write,pwrite64,rename,unlink,ftruncate,fsync,fdatasync
@@ -359,6 +375,22 @@ def child_main(spec_path):
             return None
         return raising_check if t['abort'] == 'utd' else registers_raising_saver
 
+    def make_helpers(t):
+        """(1g) uptodate items that answer before get_status looks at the record of the file_deps and / or keep a value of their own in
+        the task's saved values: doit.tools.config_changed(<str or dict>) (value '_config_changed'), doit.tools.run_once (value
+        'run-once'), the constants False / True / None.  t['cfg'] = the configuration value of THIS run (the user edits it between runs)"""
+        from doit import tools
+        items = []
+        for h in t['helpers']:
+            if h == 'config':
+                val = t.get('cfg', 'v0')
+                items.append(tools.config_changed({'opt': val, 'n': 1} if t.get('cfgform') == 'dict' else val))
+            elif h == 'run_once':
+                items.append(tools.run_once)
+            else:
+                items.append({'false': False, 'true': True, 'none': None}[h])
+        return items
+
     def make_teardown(t):
         def td():
             log('teardown-action', run_id, t['name'])
@@ -376,6 +408,8 @@ def child_main(spec_path):
                 d['uptodate'] = [make_uptodate(t)]
             if t.get('abort'):
                 d['uptodate'] = d.get('uptodate', []) + [make_abort_check(t)]
+            if t.get('helpers'):
+                d['uptodate'] = d.get('uptodate', []) + make_helpers(t)
             if t.get('setup'):
                 d['setup'] = list(t['setup'])
             if t.get('getargs'):
@@ -528,6 +562,7 @@ if __name__ == '__main__':
 import common                      # noqa: E402
 from common import Outcome         # noqa: E402
 import runlib                      # noqa: E402
+import c06_history                 # noqa: E402  (1g) the history before the interrupted run
 
 BACKENDS = ('json', 'sqlite3', 'dbm')
 
@@ -2596,7 +2631,7 @@ def part_class_model(ctx, out):
     return len(ccases)
 
 
-PRE = runlib.PRE + 'From DoitV Require Import Backends Crash.\n'
+PRE = runlib.PRE + 'From DoitV Require Import Backends Crash SaveRec.\n'
 
 
 def compare(ctx, cases):
@@ -2639,8 +2674,14 @@ def run(ctx):
                 'os.chdir() into sub-directories; the run cut at 4 points (chdir by an earlier action of the interrupted task / by earlier tasks / by the interrupted '
                 'action itself) x {KeyboardInterrupt, SystemExit, no exception: the run simply ends} x backend x {serial, thread, process} x {prior, fresh} (quick: sampled '
                 'by rotation, KeyboardInterrupt x serial x every backend x every point always) -- plus random chdir placements in the generated sets; '
+                'history (1g): a seed-independent block -- fixed 4-task set (config_changed str / dict, run_once + values-reading callable, getargs consumer), why the '
+                'tasks before the cut run again {targets removed, configuration + rev file edited, sources edited, nothing} x checker of the run before -> checker of '
+                'the cut run {md5>timestamp, timestamp>md5, md5>md5, timestamp>timestamp} x backend (quick: the no-switch histories on one backend each) -- plus random '
+                'histories (3-7 invocations, checker switches, target removals, configuration / source / rev edits and edits taken back, cut at a random action, serial / '
+                'thread) of generated task sets with helpers from the PRNG; and Dependency.save_success on every (prior record under same / other / no checker, checker, '
+                'backend) + random ones against Model/SaveRec.v; '
                 'non-trivial = distinct (configuration, observed trace) of a run whose interrupt / abort point was reached / distinct kill point at which the process really died / '
-                'distinct (form, exception class, capture) of an `execute` a BaseException leaves')
+                'distinct (form, exception class, capture) of an `execute` a BaseException leaves / distinct (backend, runner, checker sequence, traces of all runs) of a history whose cut point was reached / distinct save_success input')
     cases = []
     part_interrupt(ctx, out, cases)
     plan_info = part_kill(ctx, out, cases)
@@ -2648,7 +2689,8 @@ def run(ctx):
     part_json_assumptions(ctx, out, plan_info)
     part_abort(ctx, out, cases)     # its PRNG draws come after those of every part above
     part_action_class(ctx, out, cases)   # (1e) / (1f): PRNG draws after those of every part above
-    n_cls = part_class_model(ctx, out)   # last
+    n_cls = part_class_model(ctx, out)
+    c06_history.part_history(ctx, out, cases)   # (1g): PRNG draws after those of every part above
     bad = compare(ctx, cases)
     out.traces_validated = len(cases) + n_cls
     for i, m in bad:
@@ -2671,6 +2713,12 @@ def run(ctx):
         '(1f) the working directory is not part of any model: Model/Backends.v / Crash.v have ONE file per DB, so the correspondence (trace + DB read in the directory '
         'doit was started in) and the oracles state what must happen wherever the process is when the DB is flushed; file_dep / targets are given to doit by '
         'absolute name in these cases (a relative file_dep after os.chdir is the user\'s own affair, not the DB\'s)',
+        '(1g) what a run must skip in a history with checker switches / removed targets / edited configurations is judged by the harness\'s own ledger '
+        '(harness/c06_history.py Ledger: last flushed saved execution per task with its logged dependency state, configuration value and checker setting), '
+        'not by a model: Dependency.get_status is modelled for C03 (Model/Status.v), not in the cone of C06.  Modelled and compared here: Dependency.save_success '
+        'on one record (Model/SaveRec.v; the pairs handed to backend.set are an input of the model, the guard against a record of another checker and the '
+        'order guard-then-sets are the model\'s).  A decision about a task whose only known execution is recorded under the OTHER checker setting is not judged '
+        '(doit documents a re-execution; the property text demands neither)',
         'PARTIAL: the on-disk behaviour of dbm.dumb, sqlite3 and the kernel is swept (kill at every traced system call), not proved',
         'J-prefix / J-extra (Section variables of Proofs/CrashP.v): json.JSONDecoder rejects every proper prefix of an encoded object and every '
         'encoded object followed by the tail of a longer one -- exercised on every DB document and record of this run',
@@ -2684,7 +2732,7 @@ def run(ctx):
     ]
     out.extra['trusted_base'] = ['strace 6.1 signal injection (-e inject=<syscall>:signal=SIGKILL:when=k, one counter per syscall name) delivers the kill at '
                                  'entry of the k-th call of that syscall on the DB files',
-                                 'harness/c06.py book-keeping of expected DB content (Book) and the fsync\'ed action log']
+                                 'harness/c06.py book-keeping of expected DB content (Book; Ledger of harness/c06_history.py) and the fsync\'ed action log']
     return out
 
 
@@ -2693,6 +2741,8 @@ def replay(ctx, payload):
     case = payload.get('case', {})
     print('property C06, recorded: %s' % payload.get('what'))
     kind = case.get('replay')
+    if kind == 'history':
+        return c06_history.replay_history(ctx, case)
     sc = dict(tasks=case.get('tasks'), selected=case.get('selected'), reldb=bool(case.get('reldb')), abspaths=bool(case.get('abspaths')))
     d = os.path.join(ctx.subdir('replay'), 'w')
     if kind == 'action-class':
